@@ -29,6 +29,7 @@ type Profile struct {
 	Backfill    int // weight of dump-feed snapshot checks
 	FeedsMax    int // number of live feeds to start (0..FeedsMax)
 	MultiHandle bool
+	FixedKeys   bool // always use defaultKeys (oracles that enumerate them)
 	NoBuilders  bool // do not emit state-building operations
 	KeepFeeds   bool // the oracle needs the configured feeds (minimisation must not drop them)
 	Extra       []ExtraAction
@@ -40,6 +41,20 @@ type Profile struct {
 }
 
 var defaultKeys = []string{"a", "b", "kéy", "c"}
+
+// keyPool: keys a world's key set is drawn from when the profile does not fix one: plain ones plus
+// keys with SQL wildcard characters, quotes, spaces, and a long one
+var keyPool = []string{"a", "b", "c", "kéy", "a%", "a_b", "q'\"x", "k k", "ab", strings.Repeat("L", 180) + "é"}
+
+func worldKeys(w *World, pr *Profile) []string {
+	if len(w.Cfg.Keys) > 0 {
+		return w.Cfg.Keys
+	}
+	if len(pr.Keys) > 0 {
+		return pr.Keys
+	}
+	return defaultKeys
+}
 
 var allDocOps = map[string]int{
 	"Add": 6, "AddRaw": 4, "Set": 6, "SetRaw": 4, "WriteCas": 12, "Remove": 5, "Delete": 6,
@@ -289,6 +304,9 @@ func genExp(rt *rapid.T, w map[string]int) ExpSpec {
 	}
 	switch weighted(rt, w, "exp.kind") {
 	case "rel":
+		if chance(rt, 12, "exp.30d") {
+			return ExpSpec{Kind: "rel", V: 30 * 24 * 3600} // the largest offset: one more would be an absolute time
+		}
 		return ExpSpec{Kind: "rel", V: uint32(rapid.IntRange(3600, 2000000).Draw(rt, "exp.rel"))}
 	case "abs":
 		return ExpSpec{Kind: "abs", V: uint32(rapid.IntRange(3600, 90000000).Draw(rt, "exp.abs"))}
@@ -332,6 +350,20 @@ func genConfig(rt *rapid.T, pr *Profile) Config {
 		fc.Multi = ncoll > 1 && chance(rt, 25, "feed.multi")
 		cfg.Feeds = append(cfg.Feeds, fc)
 	}
+	if len(pr.Keys) == 0 && !pr.FixedKeys {
+		// 4 keys: two plain ones and two drawn from the pool
+		cfg.Keys = []string{"a", "b"}
+		for len(cfg.Keys) < 4 {
+			k := pick(rt, keyPool, "cfg.key")
+			dup := false
+			for _, x := range cfg.Keys {
+				dup = dup || x == k
+			}
+			if !dup {
+				cfg.Keys = append(cfg.Keys, k)
+			}
+		}
+	}
 	if pr.Config != nil {
 		pr.Config(rt, &cfg)
 	}
@@ -351,10 +383,7 @@ func genTarget(rt *rapid.T, w *World, pr *Profile) (int, string) {
 
 func genTargetAimed(rt *rapid.T, w *World, pr *Profile) (c int, key string, want string, found bool) {
 	c = pickColl(rt, w, "coll")
-	keys := pr.Keys
-	if len(keys) == 0 {
-		keys = defaultKeys
-	}
+	keys := worldKeys(w, pr)
 	want = pick(rt, priorClasses, "aim")
 	var cands []string
 	for _, k := range keys {
@@ -388,10 +417,7 @@ func GenOp(rt *rapid.T, w *World, pr *Profile) Op {
 // genBuilder: when no key is in the prior-state class the generator aims at, emit an operation that
 // creates such a key (so that later steps find documents with xattrs, tombstones with xattrs, ...).
 func genBuilder(rt *rapid.T, w *World, pr *Profile, c int, want string) (Op, bool) {
-	keys := pr.Keys
-	if len(keys) == 0 {
-		keys = defaultKeys
-	}
+	keys := worldKeys(w, pr)
 	in := func(classes ...string) []string {
 		var out []string
 		for _, k := range keys {
